@@ -184,6 +184,28 @@ func (h *Host) handleBeforeMailFromAccepted(session event.SMTPSession) *event.SM
 	return result
 }
 
+// cloneInboundMessage returns the message with deep copies of its addresses and mailbox list.
+func cloneInboundMessage(msg event.InboundMessage) event.InboundMessage {
+	if msg.Mailboxes != nil {
+		msg.Mailboxes = append([]string{}, msg.Mailboxes...)
+	}
+	if msg.From != nil {
+		from := *msg.From
+		msg.From = &from
+	}
+	if msg.To != nil {
+		to := make([]*mail.Address, len(msg.To))
+		for i, a := range msg.To {
+			if a != nil {
+				c := *a
+				to[i] = &c
+			}
+		}
+		msg.To = to
+	}
+	return msg
+}
+
 // cloneSMTPSession returns the session with deep copies of its addresses.
 func cloneSMTPSession(session event.SMTPSession) event.SMTPSession {
 	if session.From != nil {
@@ -239,6 +261,10 @@ func (h *Host) handleBeforeMessageStored(msg event.InboundMessage) *event.Inboun
 		return nil
 	}
 	defer h.pool.putState(ls)
+
+	// The handler works on its own copy of the addresses and mailboxes: whatever it changes before
+	// failing or declining to answer must not be seen by listeners consulted after it.
+	msg = cloneInboundMessage(msg)
 
 	logger.Debug().Msgf("Calling Lua function with %+v", msg)
 	if err := ls.CallByParam(
